@@ -931,6 +931,12 @@ func (sc *Scope) evalCall(x *ECall) Val {
 		v := sc.eval(x.Args[0])
 		c.compSort["$held"] = "(Array Ref Bool)"
 		return Val{T: c.hsel(sc.cur, "$held", v.T), S: SBool, GT: boolT}
+	case "unpublished":
+		// unpublished(x): x was allocated on this call chain and has not been shared yet
+		need(1)
+		v := arg(0)
+		c.compSort["$unpub"] = "(Array Ref Bool)"
+		return Val{T: c.hsel(sc.cur, "$unpub", v.T), S: SBool, GT: boolT}
 	case "panicking":
 		// panicking(): a panic is in flight (only meaningful in deferred functions)
 		need(0)
